@@ -316,6 +316,24 @@ pub fn judge_fault_free(plan: &ClientPlan, run: &ClientRun) -> Judged {
                 let n_res = pk.iter().filter(|p| p.cf == (0x06, 0x22)).count();
                 if n_res != 1 || pk.iter().any(|p| matches!(p.cf, (0x06, 0x23) | (0x06, 0x25) | (0x06, 0x50) | (0x06, 0x01))) {
                     j.fail("C07", "begin_request", "begin", format!("accepted begin must send exactly one Reservation, sent {:?}", pk.iter().map(|p| p.cf).collect::<Vec<_>>()));
+                    // whatever was sent: an abort the terminal delivered for the last reservation of the
+                    // call is an error identifying its code (C20), 'device missing' apart
+                    if let Some(last) = reqs.iter().rev().find(|r| (r.frame[0], r.frame[1]) == (0x06, 0x22)) {
+                        if let (Some(c), Some(false)) = (last.abort_sent, last.completed) {
+                            if o.result.is_ok() {
+                                j.fail("C20", "abort_as_success", "begin", format!("the terminal aborted the (last) reservation with 0x{c:02x} but begin returned Ok"));
+                            } else if c != 0xfc {
+                                if let Err(e) = identifies_code(&o.result, c, false) {
+                                    j.fail("C20", "abort_code", "begin", e);
+                                }
+                            }
+                        }
+                    }
+                    if o.result.is_ok() {
+                        // the client believes the token is open: follow it to avoid cascades
+                        let r = reqs.iter().rev().find_map(|r| r.issued_receipt).unwrap_or(0);
+                        open.insert(token.clone(), r);
+                    }
                     continue;
                 }
                 let reqs: Vec<&ReqLog> = reqs.iter().filter(|r| (r.frame[0], r.frame[1]) == (0x06, 0x22)).collect();
@@ -391,6 +409,10 @@ pub fn judge_fault_free(plan: &ClientPlan, run: &ClientRun) -> Judged {
                     // closed with the other kind of reversal of the same receipt: the transaction is
                     // closed on the terminal all the same, so the rules about what follows still apply
                     let other_reversal = pk.first().map(|p| matches!(p.cf, (0x06, 0x23) | (0x06, 0x25)) && p.get_bcd(0x87) == Some(receipt as u64) && p.get(0x87) != Some(&[0xff, 0xff][..])).unwrap_or(false);
+                    if is_commit && o.result.is_ok() && !pk.iter().any(|p| p.cf == (0x06, 0x23) && p.get_bcd(0x87) == Some(receipt as u64)) {
+                        // C08: a commit that reports success asked the terminal to release the unused part
+                        j.fail("C08", "commit_fields", "commit/not_sent", format!("commit({token:?}) returned Ok although no PartialReversal for receipt {receipt} reached the terminal: nothing was released"));
+                    }
                     if !other_reversal {
                         continue;
                     }
@@ -414,6 +436,18 @@ pub fn judge_fault_free(plan: &ClientPlan, run: &ClientRun) -> Judged {
                         let raw = q.get(0x87).map(|v| v.to_vec());
                         let rr = q.get_bcd(0x87);
                         let fine = raw.as_deref() == Some(&[0xff, 0xff]) || rr.map(|x| dangling.contains(&(x as u16))).unwrap_or(false);
+                        // a repeated PartialReversal of the own receipt (a retry after "please wait", say) must
+                        // release the very same amount, in the same currency, with the same reference
+                        if is_commit && q.cf == (0x06, 0x23) && rr == Some(receipt as u64) {
+                            if let OpSpec::Commit { amount, .. } = op {
+                                let want = (pre as u128).saturating_sub(*amount as u128) as u64;
+                                let tok = cp437(token).unwrap_or_default();
+                                if !(q.get_bcd(0x04) == Some(want) && q.get_bcd(0x49) == Some(cur) && token_of(q) == Some((b"AC".to_vec(), tok))) {
+                                    j.fail("C08", "commit_fields", "commit/repeated", format!("a repeated PartialReversal of commit({token:?}, {amount}) must release {want} in currency {cur} with reference AC/{token:?}"));
+                                }
+                            }
+                            continue;
+                        }
                         if !fine {
                             j.fail("C07", "foreign_receipt", name, format!("{name}({token:?}) also reversed receipt {:?}, which is neither its own nor one the terminal reported as dangling", rr));
                         }
